@@ -63,4 +63,43 @@ func (mp *MuxPath) rewrite(r *httpprot.Request)
   ensures exact: mp.rewriteTarget != "" && mp.path != "" && mp.path == old(r.Request.URL.Path) ==> r.Request.URL.Path == mp.rewriteTarget
   ensures prefix: mp.rewriteTarget != "" && !(mp.path != "" && mp.path == old(r.Request.URL.Path)) && mp.pathPrefix != "" && hasPrefix(old(r.Request.URL.Path), mp.pathPrefix) ==> r.Request.URL.Path == mp.rewriteTarget ++ substr(old(r.Request.URL.Path), len(mp.pathPrefix), len(old(r.Request.URL.Path)) - len(mp.pathPrefix))
   ensures regexp: mp.rewriteTarget != "" && !(mp.path != "" && mp.path == old(r.Request.URL.Path)) && !(mp.pathPrefix != "" && hasPrefix(old(r.Request.URL.Path), mp.pathPrefix)) ==> r.Request.URL.Path == (mp.pathRE != nil ? reReplace(ref(mp.pathRE), old(r.Request.URL.Path), mp.rewriteTarget) : old(r.Request.URL.Path))
+
+// ---- search: first match wins, IP filters deny with 403, 400 / 405 / 404 otherwise ----
+pred entryOK(p *MuxPath, r *muxRule, q *httpprot.Request) := hostOK(r, q) && pathOK(p, q) && methodOK(p, q) && (len(p.headers) == 0 || headersOK(p, q))
+pred hdrMiss(p *MuxPath, r *muxRule, q *httpprot.Request) := hostOK(r, q) && pathOK(p, q) && methodOK(p, q) && len(p.headers) != 0 && !headersOK(p, q)
+pred mthMiss(p *MuxPath, r *muxRule, q *httpprot.Request) := hostOK(r, q) && pathOK(p, q) && !methodOK(p, q)
+pred ipOKf(f *ipfilter.IPFilter, ip string) := f == nil || ipfilter.allows(f, ip)
+pred inRange(mi *muxInstance, i int, j int) := 0 <= i && i < len(mi.rules) && 0 <= j && j < len(mi.rules[i].paths)
+pred before(i int, j int, a int, b int) := i < a || (i == a && j < b)
+pred wfMux(mi *muxInstance) := mi != nil && (forall i int :: 0 <= i && i < len(mi.rules) ==> wfRule(mi.rules[i])) && (mi.ipFilter != nil ==> ipfilter.wfFilter(mi.ipFilter))
+pred routeConstants() := notFound != nil && notFound.code == 404 && forbidden != nil && forbidden.code == 403 && methodNotAllowed != nil && methodNotAllowed.code == 405 && badRequest != nil && badRequest.code == 400
+
+// proof witnesses: the (rule, path) position at which search decided (matched entry or denying filter)
+ghost var wi int
+ghost var wj int
+
+func (mi *muxInstance) search(req *httpprot.Request) (res *route)
+  modifies wi, wj
+  requires wfMux(mi) && wfReq(req)
+  requires cache-disabled: mi.cache == nil
+  requires route-constants: routeConstants()
+  ensures res != nil
+  ensures first-match-wins: res.code == 0 ==> inRange(mi, wi, wj) && res.path == mi.rules[wi].paths[wj] && entryOK(mi.rules[wi].paths[wj], mi.rules[wi], req) && (forall i2, j2 int :: inRange(mi, i2, j2) && before(i2, j2, wi, wj) ==> !entryOK(mi.rules[i2].paths[j2], mi.rules[i2], req))
+  ensures routed-only-if-every-applicable-filter-allows: res.code == 0 ==> ipOKf(mi.ipFilter, req.realIP) && ipOKf(mi.rules[wi].ipFilter, req.realIP) && ipOKf(res.path.ipFilter, req.realIP)
+  ensures status-codes: res.code == 0 || res.code == 403 || res.code == 400 || res.code == 405 || res.code == 404
+  ensures no-entry-matches-otherwise: res.code != 0 && res.code != 403 ==> (forall i, j int :: inRange(mi, i, j) ==> !entryOK(mi.rules[i].paths[j], mi.rules[i], req))
+  ensures bad-request-iff-header-mismatch: res.code != 0 && res.code != 403 ==> (res.code == 400 <==> (exists i, j int :: inRange(mi, i, j) && hdrMiss(mi.rules[i].paths[j], mi.rules[i], req)))
+  ensures method-not-allowed-iff-method-mismatch-only: res.code != 0 && res.code != 403 && res.code != 400 ==> (res.code == 405 <==> (exists i, j int :: inRange(mi, i, j) && mthMiss(mi.rules[i].paths[j], mi.rules[i], req)))
+  ensures forbidden-only-if-a-filter-denies: res.code == 403 ==> !ipOKf(mi.ipFilter, req.realIP) || (0 <= wi && wi < len(mi.rules) && hostOK(mi.rules[wi], req) && (!ipOKf(mi.rules[wi].ipFilter, req.realIP) || (0 <= wj && wj < len(mi.rules[wi].paths) && !ipOKf(mi.rules[wi].paths[wj].ipFilter, req.realIP) && entryOK(mi.rules[wi].paths[wj], mi.rules[wi], req))))
+  ghost at call[2] allowIP: wi := idx$1
+  ghost at call[3] allowIP: wi := idx$1
+  ghost at call[3] allowIP: wj := idx$2
+  invariant[1] server-filter-passed: ipOKf(mi.ipFilter, req.realIP) && ip == req.realIP
+  invariant[1] none-before: forall i, j int :: inRange(mi, i, j) && i < idx$1 ==> !entryOK(mi.rules[i].paths[j], mi.rules[i], req)
+  invariant[1] header-flag: headerMismatch <==> (exists i, j int :: inRange(mi, i, j) && i < idx$1 && hdrMiss(mi.rules[i].paths[j], mi.rules[i], req))
+  invariant[1] method-flag: methodMismatch <==> (exists i, j int :: inRange(mi, i, j) && i < idx$1 && mthMiss(mi.rules[i].paths[j], mi.rules[i], req))
+  invariant[2] rule: 0 <= idx$1 && idx$1 < len(mi.rules) && host == mi.rules[idx$1] && hostOK(host, req) && ipOKf(host.ipFilter, req.realIP) && ipOKf(mi.ipFilter, req.realIP) && ip == req.realIP
+  invariant[2] none-before: forall i, j int :: inRange(mi, i, j) && before(i, j, idx$1, idx$2) ==> !entryOK(mi.rules[i].paths[j], mi.rules[i], req)
+  invariant[2] header-flag: headerMismatch <==> (exists i, j int :: inRange(mi, i, j) && before(i, j, idx$1, idx$2) && hdrMiss(mi.rules[i].paths[j], mi.rules[i], req))
+  invariant[2] method-flag: methodMismatch <==> (exists i, j int :: inRange(mi, i, j) && before(i, j, idx$1, idx$2) && mthMiss(mi.rules[i].paths[j], mi.rules[i], req))
 @*/
